@@ -268,7 +268,18 @@ func c12Add(idx int, bs, lats []int64, class string) Case {
 			spec := "[" + strings.Join(parts, ",") + "]"
 			if idx%2 == 0 {
 				// the specification embedded in the report type, counts read from the text rendering
-				if out, err := runCLI(nil, "report", "-type", "hist"+spec, f); err == nil {
+				espec := spec
+				if idx%4 == 0 { // bounds as Go prints durations: 6ms, 1.5s, 2m0s
+					ps := make([]string, len(bs))
+					for i, b := range bs {
+						ps[i] = time.Duration(b).String()
+					}
+					espec = "[" + strings.Join(ps, ",") + "]"
+				}
+				out, err := runCLI(nil, "report", "-type", "hist"+espec, f)
+				if err != nil {
+					counts3, viaCLI = nil, true // a valid specification was refused: no counts at all
+				} else {
 					var got []uint64
 					for _, line := range strings.Split(string(out), "\n") {
 						fl := strings.Fields(line)
